@@ -163,6 +163,16 @@ class LibMixin:
             if m == 'reserve':
                 self.dropped['unordered_map::reserve'] += 1; return '((void)0)'
             return None
+        if k == 'arr':
+            o = self.obj_text(obj, is_arrow)
+            if m == 'size': return '((size_t)%s)' % t.n
+            if m == 'at' and len(args) == 1:
+                if self.has_side_effects(args[0]): raise Unsupported('side effect in array index')
+                i = self.expr(args[0], rvalue=True)
+                save = self.inline_checks; self.inline_checks = 1      # always as an inline obligation (value context)
+                try: return self.chk('(size_t)%s < (size_t)%s' % (i, t.n), 'array::at throws std::out_of_range', '%s.data[%s]' % (o, i))
+                finally: self.inline_checks = save
+            return None
         if k == 'pset':
             o = self.obj_text(obj, is_arrow)
             if m in ('contains', 'count') and len(args) == 1:
@@ -265,6 +275,9 @@ class LibMixin:
             return 'sv_index(%s, %s)' % (self.expr(args[0]), self.expr(args[1]))
         if t.kind == 'sv' and op in ('==', '!='):
             return '(%ssv_eq(%s, %s))' % ('!' if op == '!=' else '', self.expr(args[0]), self.expr(args[1]))
+        if t.kind == 'arr' and op == '[]':
+            o = self.expr(args[0]); i = self.expr(args[1], rvalue=True)
+            return self.chk('(size_t)%s < (size_t)%s' % (i, t.n), 'array::operator[] index < size (else UB)', '%s.data[%s]' % (o, i))
         if t.kind == 'bitref' and op == '=':
             return '(%s = %s)' % (self.expr(args[0]), self.expr(args[1], rvalue=True))
         if t.kind == 'vec' and op == '[]':
